@@ -112,7 +112,7 @@ fn check_other_kind(t: &mut Tally, p: &str, names: &[String]) {
     }
     // '**' is outside the modelled glob subset, also when it only arises after brace expansion
     match mc_core::model::brace::expand(p, 4096) {
-        Some(ex) if ex.iter().any(|e| e.contains("**")) => return,
+        Some(ex) if ex.iter().any(|e| e.contains("**") || e.starts_with(['<', '>'])) => return,
         None => return,
         _ => {}
     }
